@@ -12,6 +12,15 @@ Definition parse_entry (cx : context) (inp : list Z) : list Z :=
   | None => bad_input
   end.
 
+(** sub 2: the parse starts from [walker_state cx] updated by one [sub_context] call
+    (the state LatexWalker.make_parsing_state().sub_context(keywords) handed to parse_content as parsing_state):
+    custom math / group delimiters, disabled features, other escape / comment characters *)
+Definition parse_entry_state (cx : context) (inp : list Z) : list Z :=
+  match bind (rd_list rd_update) (fun u => bind rd_str (fun s => bind rd_bool (fun tol => ret (u, s, tol)))) inp with
+  | Some ((u, s, tol), _) => to_wire (show_res (parse_top s tol cx (Tok.PState.sub_context (walker_state cx) u)))
+  | None => bad_input
+  end.
+
 Definition entry (sub : Z) (inp : list Z) : list Z :=
   if Z.eqb sub 99 then
     match rd_tree inp with
@@ -23,5 +32,14 @@ Definition entry (sub : Z) (inp : list Z) : list Z :=
     match rd_context inp with
     | Some (cx, r) => parse_entry cx r
     | None => bad_input
+    end
+  else if Z.eqb sub 2 then
+    match inp with
+    | 0%Z :: r => parse_entry_state Gen.GenWalkerCtx.default_ctx r
+    | 1%Z :: r => match rd_context r with
+                  | Some (cx, r') => parse_entry_state cx r'
+                  | None => bad_input
+                  end
+    | _ => bad_input
     end
   else bad_input.
